@@ -3,8 +3,10 @@ package ring
 import (
 	"fmt"
 	"runtime"
+	"sort"
 	"sync"
 	"testing"
+	"testing/synctest"
 	"time"
 
 	"github.com/anishathalye/porcupine"
@@ -153,8 +155,18 @@ func doOp(r *ringbuf.Ring, op opIn) opOut {
 
 func sequential(rt *rapid.T, rec *evid.Rec) {
 	capacity := rapid.IntRange(1, 16).Draw(rt, "cap")
-	r := ringbuf.New(capacity, nil, "verif-seq")
+	// a ring created with an allocator starts full of the allocated entries (the gateway's free-frame list)
+	prealloc := rapid.Bool().Draw(rt, "preallocated")
+	var newf ringbuf.NewEntryF
 	cur := qState{}
+	if prealloc {
+		made := 0
+		newf = func() any { made++; return -made }
+		for i := 1; i <= capacity; i++ {
+			cur.q = append(cur.q, -i)
+		}
+	}
+	r := ringbuf.New(capacity, newf, "verif-seq")
 	nextID := 1
 	nOps := rapid.IntRange(1, 60).Draw(rt, "nops")
 	var hist []string
@@ -208,6 +220,9 @@ func sequential(rt *rapid.T, rec *evid.Rec) {
 	}
 	if partial {
 		labels = append(labels, "seq_partial_write")
+	}
+	if prealloc {
+		labels = append(labels, "seq_preallocated")
 	}
 	rec.Case(wrapped, fmt.Sprint("S", capacity, hist), labels...)
 	rec.Eval(nOps - 1)
@@ -383,14 +398,159 @@ func describe(ops []porcupine.Operation) []string {
 	return out
 }
 
+// quiescence is Part C: release of blocked callers, decided without timeouts. Inside a synctest
+// bubble synctest.Wait returns once every other goroutine is blocked for good (a caller waiting in
+// the ring counts as such), so after every step the set of callers still blocked is exact: while the
+// ring is open nobody may wait for data when entries are stored, nobody may wait for space when
+// there is room, and after a close nobody waits at all.
+func quiescence(t *testing.T, rt *rapid.T, rec *evid.Rec) {
+	capacity := rapid.IntRange(1, 16).Draw(rt, "cap")
+	prealloc := rapid.Bool().Draw(rt, "preallocated")
+	type stepT struct {
+		kind string
+		size int
+	}
+	n := rapid.IntRange(1, 30).Draw(rt, "steps")
+	var steps []stepT
+	for i := 0; i < n; i++ {
+		k := rapid.SampledFrom([]string{"blocking_read", "blocking_read", "blocking_write", "blocking_write", "write", "write", "read", "read", "close"}).Draw(rt, "step")
+		if k == "close" && i < n/2 {
+			k = "read"
+		}
+		steps = append(steps, stepT{k, rapid.IntRange(0, 20).Draw(rt, "size")})
+	}
+	var fail string
+	labels := map[string]bool{}
+	synctest.Test(t, func(t *testing.T) {
+		var newf ringbuf.NewEntryF
+		stored := 0
+		if prealloc {
+			newf = func() any { return 0 }
+			stored = capacity
+		}
+		r := ringbuf.New(capacity, newf, "verif-quiet")
+		var mu sync.Mutex
+		type resT struct {
+			read bool
+			n    int
+		}
+		var results []resT
+		blockedR, blockedW := 0, 0 // callers started and not yet returned
+		closed := false
+		var wg sync.WaitGroup
+		call := func(read bool, size int, block bool) {
+			el := make(ringbuf.EntryList, size)
+			for i := range el {
+				el[i] = 1
+			}
+			var n int
+			if read {
+				n, _ = r.Read(el, block)
+			} else {
+				n, _ = r.Write(el, block)
+			}
+			mu.Lock()
+			results = append(results, resT{read, n})
+			mu.Unlock()
+		}
+		settle := func(i int, st stepT) bool {
+			synctest.Wait()
+			mu.Lock()
+			for _, x := range results {
+				if x.read {
+					blockedR--
+					if x.n > 0 {
+						stored -= x.n
+					}
+				} else {
+					blockedW--
+					if x.n > 0 {
+						stored += x.n
+					}
+				}
+			}
+			results = nil
+			mu.Unlock()
+			switch {
+			case stored < 0 || stored > capacity:
+				fail = fmt.Sprintf("step %d %v: %d entries stored in a ring of capacity %d", i, st, stored, capacity)
+			case closed && blockedR+blockedW > 0:
+				fail = fmt.Sprintf("step %d %v: ring is closed but %d readers and %d writers are still blocked", i, st, blockedR, blockedW)
+			case !closed && blockedR > 0 && stored > 0:
+				fail = fmt.Sprintf("step %d %v: %d readers are still blocked although %d entries are stored and nothing else is running", i, st, blockedR, stored)
+			case !closed && blockedW > 0 && stored < capacity:
+				fail = fmt.Sprintf("step %d %v: %d writers are still blocked although %d of %d slots are free and nothing else is running", i, st, blockedW, capacity-stored, capacity)
+			}
+			return fail == ""
+		}
+		for i, st := range steps {
+			switch st.kind {
+			case "blocking_read", "blocking_write":
+				read := st.kind == "blocking_read"
+				if read {
+					blockedR++
+				} else {
+					blockedW++
+				}
+				wg.Add(1)
+				go func() { defer wg.Done(); call(read, st.size, true) }()
+			case "read", "write":
+				read := st.kind == "read"
+				if read {
+					blockedR++
+				} else {
+					blockedW++
+				}
+				before := blockedR + blockedW
+				call(read, st.size, false)
+				if before > 1 && st.size > 0 {
+					labels["quiet_transfer_with_callers_blocked"] = true
+				}
+			case "close":
+				r.Close()
+				closed = true
+				labels["quiet_close"] = true
+			}
+			if !settle(i, st) {
+				break
+			}
+			if blockedR > 1 {
+				labels["quiet_several_readers_blocked"] = true
+			}
+			if blockedW > 1 {
+				labels["quiet_several_writers_blocked"] = true
+			}
+		}
+		r.Close()
+		closed = true
+		if fail == "" {
+			settle(len(steps), stepT{"close", 0})
+		}
+		wg.Wait()
+	})
+	if fail != "" {
+		rt.Fatalf("capacity %d preallocated=%v: %s\nsteps %v", capacity, prealloc, fail, steps)
+	}
+	var ls []string
+	for l := range labels {
+		ls = append(ls, l)
+	}
+	sort.Strings(ls)
+	rec.Case(labels["quiet_several_readers_blocked"] || labels["quiet_several_writers_blocked"], fmt.Sprint("Q", capacity, prealloc, steps), ls...)
+	rec.Eval(len(steps) - 1)
+	rec.Sample(func() any { return map[string]any{"part": "quiescence", "capacity": capacity, "steps": fmt.Sprint(steps)} })
+}
+
 func TestC48(t *testing.T) {
 	rec := evid.New("C48", "rapid: Part A sequential histories (capacity 1-16, up to 60 batch writes/reads of 0-20 entries, blocking flag where the call cannot block, a close) compared step by step with a bounded-FIFO model; "+
 		"Part B concurrent histories under -race (capacity 1-16, 2-8 goroutines with scripts of up to 6 blocking/non-blocking batch operations, one close at a drawn delay, drawn yield pattern) checked with porcupine against the same model "+
-		"plus at-most-once, per-writer order and conservation invariants. Non-trivial: more entries accepted than the capacity (wrap-around) and, in Part B, at least one blocking call and >= 6 operations.")
+		"plus at-most-once, per-writer order and conservation invariants; Part C histories of up to 30 steps (blocking callers started, non-blocking batch transfers, close) in a synctest bubble: after every step, once everything else is blocked for good, "+
+		"nobody waits for data while entries are stored, nobody waits for space while slots are free, nobody waits after close. Rings start empty or pre-allocated (full). Non-trivial: more entries accepted than the capacity (wrap-around) and, in Part B, at least one blocking call and >= 6 operations.")
 	defer rec.Flush(t)
 	rec.Assume("goroutine interleavings are sampled, not enumerated (the harness does not own the Go scheduler)", "porcupine v1.3.0 linearizability checker; a checker timeout is counted, not failed",
 		"a caller still blocked 20 s after Close is reported as a violation of the release guarantee")
-	rec.Require("seq_wrapped", "seq_read_after_close", "seq_partial_write", "conc", "conc_wrapped", "conc_ops_after_close")
+	rec.Require("seq_wrapped", "seq_read_after_close", "seq_partial_write", "conc", "conc_wrapped", "conc_ops_after_close", "seq_preallocated", "quiet_several_readers_blocked", "quiet_several_writers_blocked", "quiet_transfer_with_callers_blocked", "quiet_close")
 	t.Run("sequential", func(t *testing.T) { rapid.Check(t, func(rt *rapid.T) { sequential(rt, rec) }) })
 	t.Run("concurrent", func(t *testing.T) { rapid.Check(t, func(rt *rapid.T) { concurrent(rt, rec) }) })
+	t.Run("quiescence", func(t *testing.T) { rapid.Check(t, func(rt *rapid.T) { quiescence(t, rt, rec) }) })
 }
